@@ -10,11 +10,18 @@ import (
 	"verif/internal/corpus"
 	"verif/internal/fw"
 	"verif/internal/llvmref"
+	"verif/internal/mgen"
 )
+
+var devExtra = map[string]func(args []string){}
 
 // Dev holds development helpers (not part of any check).
 func Dev(args []string) {
 	if len(args) == 0 {
+		return
+	}
+	if f, ok := devExtra[args[0]]; ok {
+		f(args[1:])
 		return
 	}
 	switch args[0] {
@@ -69,4 +76,37 @@ func firstLine(s string) string {
 		s = s[:i]
 	}
 	return fw.Trunc(s, 160)
+}
+
+func init() {
+	devExtra["mgen"] = func(args []string) {
+		// vcheck --dev mgen <n>: LLVM acceptance rate of generated modules, first rejects shown
+		n := 200
+		if len(args) > 0 {
+			fmt.Sscan(args[0], &n)
+		}
+		ok := 0
+		shown := 0
+		for i := 0; i < n; i++ {
+			m := mgen.Generate(int64(i+1), mgen.DefaultFeatures())
+			acc, msg, _ := llvmref.Accepts(m.Text)
+			if acc {
+				ok++
+				continue
+			}
+			if shown < 8 {
+				shown++
+				fmt.Printf("--- seed %d rejected: %s\n", i+1, firstLine(lastDiag(msg)))
+				if len(args) > 1 {
+					fmt.Println(m.Text)
+				}
+			}
+		}
+		fmt.Printf("accepted %d of %d\n", ok, n)
+	}
+	devExtra["mgen1"] = func(args []string) {
+		var seed int64 = 1
+		fmt.Sscan(args[0], &seed)
+		fmt.Print(mgen.Generate(seed, mgen.DefaultFeatures()).Text)
+	}
 }
